@@ -402,6 +402,7 @@ func (vc *FuncVC) applyContract(st *State, reach Term, ins *ssa.Call, callee *ss
 	} else {
 		for _, ax := range fc.Assigns {
 			for _, lf := range vc.lvalue(envPre, ax) {
+				vc.checkWrite(lf.Key, lf.Idx, "assigned by "+name)
 				vc.logWrite(lf.Key, lf.Idx, lf.Sort)
 				v := vc.havocLeaf(st, lf.Key, lf.Idx, lf.Sort, "h_"+callee.Name())
 				if lf.Type != nil {
